@@ -1,6 +1,6 @@
 """C07 — fair semaphore serves requests in arrival order (structure)."""
 from rl import (entry_methods, loc_endswith, path_cond, trace_summary, where, const_of, fmt_val)
-from common import fifo_ends, own_node_roots, fair_no_requeue, sem_fair_J, cmp_fact
+from common import fifo_ends, own_node_roots, fair_no_requeue, sem_fair_J, cmp_fact, poll_variant
 from typestate import check_typestate
 from props.c06 import find_wakeup_fn
 
@@ -59,6 +59,13 @@ def run(C, R):
             for path in paths:
                 if path.exit != 'return':
                     continue
+                # R2 instance: a granting path for a zero-permit request that is neither in unfair mode nor saw an
+                # empty queue (whether it spells out `permits -= 0` or not)
+                grant = path.ret == ('const', 1) or poll_variant(E, path) == 'Ready'
+                if grant and gate(E, path, {}, ('const', 1)) is None and any(
+                        isinstance(k, tuple) and k[:2] == ('bin', 'Eq') and ('const', 0) in k[2:4] and v == ('eq', 1)
+                        and 'required_permits' in repr(k) for k, v in path.facts.items()):
+                    zero += 1
                 for e in path.events:
                     if e['k'] == 'write' and loc_endswith(e['loc'], 'permits') and e['val'][0] == 'bin' \
                             and e['val'][1] == 'Sub':
